@@ -253,6 +253,8 @@ LeakT(n, D) ==
            n1 == [n EXCEPT !.lo = own[1], !.hi = own[2]]
        IN IF Const(own) THEN n1
           ELSE [n1 EXCEPT !.kids = [ i \in DOMAIN n.kids |-> LeakT(n.kids[i], D) ]]
+RECURSIVE StripCls(_)
+StripCls(n) == IF IsAtom(n) THEN n ELSE [n EXCEPT !.cls = "", !.kids = [ i \in DOMAIN n.kids |-> StripCls(n.kids[i]) ]]
 KnownMarkers == {"KNOWN_assume_own_id_leak"}
 DictOps == {"evaluate", "evaluate_all", "assume"}
 \* one step: [h, op, dict, before, after, res, res_fresh, hooks, ...]; taint = handles whose state a known deviation changed
@@ -270,6 +272,10 @@ StepV(s, taint) ==
              \cup Fail("no_unexplained_overwrite", \A k \in DOMAIN s.hooks :
                          s.op \in DictOps /\ s.hooks[k].id \in DOMAIN D /\ s.hooks[k].new = D[s.hooks[k].id])
              \cup Fail("result_as_fresh", s.h \in taint \/ s.res = s.res_fresh)
+             \* an object a known deviation has changed must still answer like a freshly built object with ITS CURRENT definition
+             \* (class names are not compared: the rebuilt object is made of plain AtLeast nodes)
+             \cup Fail("result_as_state", (s.h \in taint /\ s.has_state) =>
+                         IF s.res_is_node THEN StripCls(s.res) = StripCls(s.res_state) ELSE s.res = s.res_state)
              \cup (IF s.op = "add" /\ ~s.raised /\ s.h \notin taint THEN
                      Fail("refused_iff_clash", s.refused <=> (s.rule_id \in { bf[s.h].kids[i].id : i \in DOMAIN bf[s.h].kids }))
                      \cup (IF s.refused THEN {} ELSE
